@@ -12,17 +12,23 @@ Two program modes over a fixed variable schema (T = int or real, chosen per prog
   'index'  : arrays with lower bounds /= 1 accessed by elements (literal / loop-variable subscripts), explicitly bounded
              unit-stride sections of 1-D arrays, whole-array operations, calls; declarations optionally written '(1:n)'
 
-case = base case keys + 'mode', 'xforms', 'hazards', 'hz_paths', 'avoided', 'feats', 'certain'.
+case = base case keys + 'mode', 'xforms', 'hazards', 'hz_paths', 'avoided', 'feats', 'certain', 'body_start', 'groups'
+(kernel body = prologue + generated statements [body_start, body_start+sum(groups)) + checksum epilogue), 'minimal'.
 
 Known-finding triggers (never in the main stream; one dedicated sub-stream each; see known_findings.d/C30.txt):
   forward-overlap       RHS reads elements of the LHS array that the generated loop has already overwritten
   stride-mismatch       RHS section stride differs from the LHS stride (incl. negative strides)
   enclosing-loop-range  section range equals the range of a loop whose variable belongs to an enclosing loop
   where-ranges          WHERE whose mask/body ranges are not all the range of one existing loop
-  inquiry-on-array      size/lbound/ubound(array) on the RHS of a section assignment
+  where-reduction       WHERE whose mask or body contains an array reduction (sum/minval/maxval of an array)
   half-open-range       LHS range with omitted lower or upper bound ('a(:k)', 'a(k:)')
-  normalize-stride-dropped  strided section of an array with lower bound /= 1 (normalize_array_shape_and_access)
+  bound-inquiry         lbound/ubound of a whole array with lower bound /= 1 (add_explicit_array_dimensions)
+  vector-dimension-bare-rhs  `zn(1:n) = zn`: whole-array reference on the RHS of a section assignment over the dimension
+                        (resolve_vector_dimension with derive_qualified_ranges=False)
   flatten-section       section of a multi-dimensional array (flatten_arrays)
+Repaired in /repo (now part of the main stream; their old replays are `fixed:` regressions):
+  inquiry-on-array (size/lbound/ubound(array) on the RHS of a section assignment; b321ef2),
+  normalize-stride-dropped (strided section of an array with lower bound /= 1; 17cfdab)
 Documented limitation, generated rarely (AssertionError -> rejected_by_loki): multi-clause WHERE (ELSEWHERE(mask)).
 """
 import itertools
@@ -33,9 +39,10 @@ from .model import var, lit, decl, routine, module
 from . import gen as B
 from .gen_assoc import small_entry, checksum_epilogue, kernel_of, copy_case, mentioned_names
 
-HAZARDS = ['forward-overlap', 'stride-mismatch', 'enclosing-loop-range', 'where-ranges', 'inquiry-on-array',
-           'half-open-range', 'normalize-stride-dropped', 'flatten-section']
-VECTOR_HAZARDS = HAZARDS[:6]
+HAZARDS = ['forward-overlap', 'stride-mismatch', 'enclosing-loop-range', 'where-ranges', 'where-reduction',
+           'half-open-range', 'bound-inquiry', 'vector-dimension-bare-rhs', 'flatten-section']
+VECTOR_HAZARDS = HAZARDS[:8]
+REDUCTIONS = ('sum', 'minval', 'maxval')
 
 PROFILE = B.profile(print=False, comments=False, internal=False, real_class='dyadic', max_depth=2, max_stmts=3,
                     expr_depth=2, n_helpers=1, sections=False, where=False, select=False, inquiry=False,
@@ -57,6 +64,7 @@ class S:
         self.certain = True
         self.ncertain = 0
         self.dims = {}
+        self.bare_rhs_1n = False
 
 
 def nval(x, n):
@@ -114,28 +122,48 @@ def qualified(d):
     return (d['lo'], d['hi'], None if d['st'] == 1 else d['st'])
 
 
-def elem_of(spec, pos, n):
+def elem_of(spec, pos, n, lvals=None):
     out, k = [], 0
     for d in spec:
         if d['k'] == 's':
-            out.append(('s', d['v'] if d['v'] is not None else repr(d['e'])))
+            v = d['v']
+            if isinstance(v, str) and v.startswith('loop:'):
+                v = (lvals or {})[v[5:]]        # value of the enclosing loop variable in this execution
+            out.append(v if v is not None else ('s', repr(d['e'])))
         else:
             out.append(nval(d['lo'], n) + pos[k] * d['st'])
             k += 1
     return tuple(out)
 
 
-def forward_hazard(lhs, same_terms):
-    """does the loop nest loki generates (first range dimension innermost) read an element it has already written?"""
+def loop_vars_of(specs):
+    out = []
+    for spec in specs:
+        for d in spec:
+            if d['k'] == 's' and isinstance(d['v'], str) and d['v'].startswith('loop:') and d['v'][5:] not in out:
+                out.append(d['v'][5:])
+    return out
+
+
+def forward_hazard(lhs, same_terms, active_loops=None):
+    """
+    does the loop nest loki generates (first range dimension innermost) read an element it has already written?
+    Scalar subscripts that are enclosing loop variables are enumerated over the (literal) range of their loop:
+    `lm(:, lj0) = lm(1, 1:3)` overlaps exactly when lj0 > 1.
+    """
+    lvs = loop_vars_of([lhs] + list(same_terms))
+    ranges = [range(active_loops[lv][0], active_loops[lv][1] + 1) for lv in lvs]
     for n in range(3, B.NMAX + 1):
         L = [len(indices(d, n)) for d in lhs if d['k'] == 'r']
-        written = set()
-        for rev in itertools.product(*[range(x) for x in reversed(L)]):
-            pos = rev[::-1]
-            for t in same_terms:
-                if elem_of(t, pos, n) in written:
-                    return True
-            written.add(elem_of(lhs, pos, n))
+        for vals in itertools.product(*ranges):
+            lvals = dict(zip(lvs, vals))
+            written = set()
+            for rev in itertools.product(*[range(x) for x in reversed(L)]):
+                pos = rev[::-1]
+                for t in same_terms:
+                    if elem_of(t, pos, n, lvals) in written:
+                        return True
+                written.add(elem_of(lhs, pos, n, lvals))
     return False
 
 
@@ -259,6 +287,22 @@ def conform_term(g, env, s, name, lhs, lhs_name, shift_ok=True, mismatch=False):
     return spec
 
 
+def scalar_operand(g, gq, env, s, t, depth, target):
+    """
+    scalar subexpression of an array assignment / WHERE on ``target``: it must not read ``target`` (element, reduction or
+    whole array) - the generated loop evaluates it in every iteration, i.e. after elements have been overwritten
+    (`a(1:n) = a(2) + 1`), which is the known finding 'forward-overlap'
+    """
+    if 'forward-overlap' in s.allow:
+        return B.expr_of(gq, env, t, depth)
+    for _ in range(3):
+        e = B.expr_of(gq, env, t, depth)
+        if target not in mentioned_names(e):
+            return e
+        s.avoided.append('forward-overlap')
+    return B.init_value(g, t)
+
+
 def section_assign(g, env, s, depth, force=None):
     """one array assignment; returns (stmt, hazards) or None"""
     T = s.T
@@ -297,14 +341,14 @@ def section_assign(g, env, s, depth, force=None):
 
     def leaf(d):
         if g.chance(30):
-            return B.expr_of(g2, env, t, 1)     # scalar broadcast
+            return scalar_operand(g, g2, env, s, t, 1, name)     # scalar broadcast
         for _ in range(3):
             n2 = g.pick(cands + [name])
             term = conform_term(g, env, s, n2, lhs, name, mismatch=(force == 'stride-mismatch'))
             if term is None:
                 continue
             if n2 == name:
-                if forward_hazard(lhs, same_terms + [term]):
+                if forward_hazard(lhs, same_terms + [term], env.active_loops):
                     s.avoided.append('forward-overlap')
                     continue
                 same_terms.append(term)
@@ -312,8 +356,10 @@ def section_assign(g, env, s, depth, force=None):
             tb = all(x['k'] == 'r' and x['form'] == 'full' for x in term) and g.chance(40)
             if any(x['k'] == 'r' and x['form'] == 'full' for x in term):
                 feats.add('rhs-bare-colon')
+            if tb:
+                feats.add('rhs-whole-array')
             return sec_expr(n2, term, bare=tb)
-        return B.expr_of(g2, env, t, 0)
+        return scalar_operand(g, g2, env, s, t, 0, name)
 
     def tree(d):
         if d <= 0 or g.chance(35):
@@ -337,13 +383,29 @@ def section_assign(g, env, s, depth, force=None):
             return None
         rhs = ['b', '+', sec_expr([n for n in cands][0], term), rhs] if False else sec_expr(term_name(cands, s, term), term)
         hazards.append('stride-mismatch')
-    if force == 'inquiry-on-array':
-        arr = g.pick(cands)
-        rhs = ['b', '+', rhs, ['f', g.pick(['size', 'ubound', 'lbound']), [var(arr)] + ([['i', 1]] if g.chance(60) else []), {}]] \
-            if t == 'int' else ['b', '+', rhs, ['f', 'real', [['f', 'size', [var(arr)], {}], ['i', 8]], {}]]
-        if rhs[3][0] == 'f' and rhs[3][1] in ('ubound', 'lbound') and len(rhs[3][2]) == 1:
-            rhs[3][2].append(['i', 1])
-        hazards.append('inquiry-on-array')
+    if force == 'bound-inquiry' or (force is None and g.chance(12)):
+        # array inquiry on the RHS of a section assignment (the statement must then be left alone by the resolver).
+        # lbound/ubound of a whole array whose lower bound is not 1 is the trigger of the known finding 'bound-inquiry'
+        # (add_explicit_array_dimensions turns `lbound(a, 1)` into `lbound(a(:), 1)` = 1): main stream uses arrays
+        # with lower bound 1 for lbound/ubound, any array for size
+        fn = g.pick(['size', 'size', 'ubound', 'lbound']) if force is None else g.pick(['ubound', 'lbound'])
+        arrs = sorted(s.dims)
+        if fn != 'size':
+            off = [a for a in arrs if s.dims[a][0][0] != 1]
+            one = [a for a in arrs if s.dims[a][0][0] == 1]
+            if force == 'bound-inquiry':
+                if not off:
+                    return None
+                arrs = off
+                hazards.append('bound-inquiry')
+            else:
+                if off:
+                    s.avoided.append('bound-inquiry')
+                arrs = one
+        arr = g.pick(arrs)
+        call = ['f', fn, [var(arr)] + ([['i', 1]] if (fn != 'size' or g.chance(50)) else []), {}]
+        rhs = ['b', '+', rhs, call if t == 'int' else ['f', 'real', [call, ['i', 8]], {}]]
+        feats.add('inquiry-on-rhs')
     if force == 'half-open-range':
         k = next(i for i, d in enumerate(lhs) if d['k'] == 'r')
         lb, ub = s.dims[name][k]
@@ -356,7 +418,7 @@ def section_assign(g, env, s, depth, force=None):
                 lb2, ub2 = s.dims[name][j]
                 lhs[j] = sdim(lit(lb2), lb2)
         bare = False
-        rhs = B.expr_of(g2, env, t, 1)
+        rhs = scalar_operand(g, g2, env, s, t, 1, name)
         hazards.append('half-open-range')
     for d in lhs:
         if d['k'] == 'r':
@@ -365,6 +427,10 @@ def section_assign(g, env, s, depth, force=None):
                 feats.add('strided' if d['st'] > 0 else 'negative-stride')
             if d['form'] == 'full':
                 feats.add('lhs-bare-colon')
+    if 'rhs-whole-array' in feats and not bare and any(d['k'] == 'r' and d['hi'] == 'n' and d['form'] == 'lo:hi' for d in lhs):
+        # `zn(1:n) = zn`: trigger of the known finding 'vector-dimension-bare-rhs' (resolve_vector_dimension without
+        # derive_qualified_ranges leaves the whole-array reference on the RHS: `zn(jl) = zn`)
+        s.bare_rhs_1n = True
     nr = sum(1 for d in lhs if d['k'] == 'r')
     feats.add(f'lhs-ranges:{nr}')
     if nr < len(lhs):
@@ -407,7 +473,15 @@ def companion_loop(g, env, s, name, rng, depth):
     return ['do', lv, bexpr(lo), bexpr(hi), None, [['assign', ['d', [[name, subs]]], rhs]], 'plain']
 
 
-def gen_where(g, env, s, depth, hazard=False):
+def has_reduction(e):
+    if isinstance(e, list):
+        if len(e) >= 2 and e[0] == 'f' and e[1] in REDUCTIONS:
+            return True
+        return any(has_reduction(x) for x in e)
+    return False
+
+
+def gen_where(g, env, s, depth, hazard=False, reduction=False):
     """single-clause WHERE (+ELSEWHERE) over one range of a 1-D array (or one range dim), with its companion loop"""
     names = [n for n in s.dims if not env.vars[n].get('ro') and len(s.dims[n]) == 1 and env.vars[n]['type'] == s.T]
     name = g.pick(names)
@@ -428,12 +502,24 @@ def gen_where(g, env, s, depth, hazard=False):
         return None
     t = s.T
     g2 = s.gq(g)
+    if reduction:
+        s.allow.add('where-reduction')
+    plain_g = B.G(g.draw, dict(g2.p, reductions=False))
+
+    def scalar_expr(depth):
+        """scalar operand of the mask / of a body assignment: an array reduction inside a WHERE is a known-finding trigger"""
+        e = scalar_operand(g, g2, env, s, t, depth, name)
+        if has_reduction(e) and 'where-reduction' not in s.allow:
+            s.avoided.append('where-reduction')
+            e = scalar_operand(g, plain_g, env, s, t, depth, name)
+        return e
+
     lhs = [d]
     bare = d['form'] == 'full' and g.chance(50)
     # mask: every array section has exactly the LHS range
     others = [n for n in s.dims if len(s.dims[n]) == 1 and env.vars[n]['type'] == t and n != name
               and s.dims[n][0][0] <= nval(d['lo'], 3) and (s.dims[n][0][1] == 'n' or (d['hi'] != 'n' and s.dims[n][0][1] >= d['hi']))]
-    m_rhs = B.expr_of(g2, env, t, 1)
+    m_rhs = scalar_expr(1)
     if others and g.chance(40) and d['hi'] != 'n':
         m_rhs = sec_expr(g.pick(others), [rdim(d['lo'], d['hi'], 1)])
     mask = ['b', g.pick(['<', '>', '<=', '>=']), sec_expr(name, lhs, bare=bare), m_rhs]
@@ -443,14 +529,14 @@ def gen_where(g, env, s, depth, hazard=False):
     def body_assign():
         cands = [n for n in s.dims if env.vars[n]['type'] == t]
         if g.chance(35):
-            rhs = B.expr_of(g2, env, t, 1)
+            rhs = scalar_expr(1)
         else:
             n2 = g.pick(cands)
             term = conform_term(g, env, s, n2, lhs, name, shift_ok=False)
             if term is None or n2 == name:
-                rhs = ['b', '+', sec_expr(name, lhs), B.expr_of(g2, env, t, 0)]
+                rhs = ['b', '+', sec_expr(name, lhs), scalar_expr(0)]
             else:
-                rhs = ['b', g.pick(['+', '*']), sec_expr(n2, term), B.expr_of(g2, env, t, 0)]
+                rhs = ['b', g.pick(['+', '*']), sec_expr(n2, term), scalar_expr(0)]
         return ['assign', sec_expr(name, lhs, bare=bare), rhs]
 
     form = g.pick(['where1', 'where', 'where-else', 'where-else'])
@@ -463,6 +549,14 @@ def gen_where(g, env, s, depth, hazard=False):
         s.feats.add('where-elsewhere')
     s.feats.add('where')
     s.sect_ranges.setdefault(depth, set()).add(q)
+    if reduction:
+        # the trigger itself: a reduction of a whole 1-D array in the mask or in the body assignment
+        red = ['f', g.pick(list(REDUCTIONS)),
+               [var(g.pick([n for n in s.dims if env.vars[n]['type'] == t and len(s.dims[n]) == 1]))], {}]
+        if g.chance(50):
+            w = ['where1', ['b', '<', sec_expr(name, lhs, bare=bare), red], body_assign()]
+        else:
+            w = ['where1', mask, ['assign', sec_expr(name, lhs, bare=bare), ['b', '+', sec_expr(name, lhs), red]]]
     if hazard:
         return [w]
     loop = companion_loop(g, env, s, name, q, depth)
@@ -553,7 +647,7 @@ def gen_stmt(g, env, s, depth, nstmts, in_if=False):
             s.feats.add('call')
             return [r]
     elif c == 'sect1d':
-        r = index_section(g, env, s)
+        r = index_section(g, env, s, strided=g.chance(35))
         if r is not None:
             if s.certain:
                 s.ncertain += 1
@@ -582,35 +676,49 @@ def gen_body(g, env, s, depth, nstmts, in_if=False):
 
 
 def index_section(g, env, s, strided=False):
-    """explicitly bounded section assignment on 1-D arrays (index mode): a(lo:hi[:2]) = b(lo2:hi2[:2]) op scalar"""
+    """
+    explicitly bounded section assignment on 1-D arrays (index mode): a(lo:hi[:st]) = b(lo2:hi2[:st2]) op scalar.
+    The index-normalising entry points only shift bounds, so the strides of the two sides are independent
+    (any of 1, 2, -1 when ``strided``) and arrays with lower bounds /= 1 are preferred.
+    """
     names = [n for n in s.dims if len(s.dims[n]) == 1 and s.dims[n][0][1] != 'n' and not env.vars[n].get('ro')]
-    if strided:
-        names = [n for n in names if s.dims[n][0][0] != 1]
+    off = [n for n in names if s.dims[n][0][0] != 1]
+    if strided and off and g.chance(70):
+        names = off
     if not names:
         return None
     n = g.pick(names)
     t = env.vars[n]['type']
+
+    def sect(lb, ub, cnt, stt):
+        span = (cnt - 1) * abs(stt)
+        lo = lb + g.i(0, ub - lb - span)
+        return rdim(lo, lo + span, stt) if stt > 0 else rdim(lo + span, lo, stt)
+
     lb, ub = s.dims[n][0]
-    stt = 2 if strided else 1
-    cnt = g.i(2, (ub - lb) // stt + 1)
-    lo = lb + g.i(0, ub - lb - (cnt - 1) * stt)
-    lhs = [rdim(lo, lo + (cnt - 1) * stt, stt)]
-    src = [m for m in s.dims if len(s.dims[m]) == 1 and s.dims[m][0][1] != 'n' and env.vars[m]['type'] == t and m != n
-           and s.dims[m][0][1] - s.dims[m][0][0] >= (cnt - 1) * stt]
+    stt = g.pick([2, 2, -1]) if strided else 1
+    cnt = g.i(2, (ub - lb) // abs(stt) + 1)
+    lhs = [sect(lb, ub, cnt, stt)]
     rhs = B.expr_of(s.gq(g), env, t, 1)
-    if src and not strided and g.chance(70):
+    st2 = g.pick([stt, 1, 2, -1]) if strided else 1
+    src = [m for m in s.dims if len(s.dims[m]) == 1 and s.dims[m][0][1] != 'n' and env.vars[m]['type'] == t and m != n
+           and s.dims[m][0][1] - s.dims[m][0][0] >= (cnt - 1) * abs(st2)]
+    if src and g.chance(70):
         m = g.pick(src)
         lb2, ub2 = s.dims[m][0]
-        lo2 = lb2 + g.i(0, ub2 - lb2 - (cnt - 1) * stt)
-        rhs = ['b', g.pick(['+', '*']), sec_expr(m, [rdim(lo2, lo2 + (cnt - 1) * stt, stt)]), rhs]
+        rhs = ['b', g.pick(['+', '*']), sec_expr(m, [sect(lb2, ub2, cnt, st2)]), rhs]
+        if st2 != stt:
+            s.feats.add('section-1d-strides-differ')
     s.feats.add('section-1d-explicit-bounds' + ('-strided' if strided else ''))
+    if stt < 0 or st2 < 0:
+        s.feats.add('negative-stride')
     return ['assign', sec_expr(n, lhs), rhs]
 
 
 # ------------------------------------------------------------------ hazard templates
 def hazard_stmts(g, env, s, tag):
     obs = []
-    if tag in ('forward-overlap', 'stride-mismatch', 'inquiry-on-array', 'half-open-range'):
+    if tag in ('forward-overlap', 'stride-mismatch', 'bound-inquiry', 'half-open-range'):
         for _ in range(6):
             r = section_assign(g, env, s, 0, force=tag)
             if r is not None and tag in r[1]:
@@ -623,17 +731,18 @@ def hazard_stmts(g, env, s, tag):
         name = g.pick(['zb'])
         st1 = ['assign', sec_expr(name, [rdim(lo, hi, 1)]), ['b', '+', var('lj0'), B.expr_of(s.gq(g), env, env.vars[name]['type'], 0)]]
         return [['do', 'lj0', lit(lo), lit(hi), None, [st1], 'plain']]
-    if tag == 'where-ranges':
+    if tag == 'vector-dimension-bare-rhs':
+        rhs = var('zn')
+        if g.chance(50):
+            rhs = ['b', g.pick(['+', '*']), rhs, scalar_operand(g, s.gq(g), env, s, env.vars['zn']['type'], 0, 'zn')]
+        return [['assign', sec_expr('zn', [rdim(1, 'n', 1)]), rhs]]
+    if tag in ('where-ranges', 'where-reduction'):
+        # where-ranges: no companion loop; where-reduction: ranges aligned with a companion loop, reduction inside
         for _ in range(6):
-            r = gen_where(g, env, s, 0, hazard=True)
+            r = gen_where(g, env, s, 0, hazard=(tag == 'where-ranges'), reduction=(tag == 'where-reduction'))
             if r is not None:
                 return r
         raise RuntimeError('could not build hazard ' + tag)
-    if tag == 'normalize-stride-dropped':
-        r = index_section(g, env, s, strided=True)
-        if r is None:
-            raise RuntimeError('no array with lower bound /= 1')
-        return [r]
     if tag == 'flatten-section':
         name = g.pick([n for n in s.dims if len(s.dims[n]) == 2 and not env.vars[n].get('ro')])
         (lb1, ub1), (lb2, ub2) = s.dims[name]
@@ -642,18 +751,35 @@ def hazard_stmts(g, env, s, tag):
     raise ValueError(tag)
 
 
+def nonzero_weights(epi):
+    """
+    The shared checksum epilogue weights element k of a 1-D array with k itself: the element with index 0 of an array
+    with lower bound <= 0 would be unobservable. Use k + 2 (all lower bounds of this profile are >= -1).
+    """
+    for st_ in epi:
+        if st_[0] == 'do' and st_[5][0][0] == 'assign':
+            lo = st_[2]
+            assert lo[0] == 'i' or (lo[0] == 'u' and lo[2] == ['i', 1]), lo     # lower bound >= -1
+            prod = st_[5][0][2][3]          # acc + weight*elem
+            assert prod[0] == 'b' and prod[1] == '*' and prod[2] == var(st_[1]), prod
+            prod[2] = ['p', ['b', '+', var(st_[1]), ['i', 2]]]
+    return epi
+
+
 # ------------------------------------------------------------------ transformations
-def gen_xforms(g, mode, hazard):
+def gen_xforms(g, mode, hazard, nextra=4):
+    if hazard == 'bound-inquiry':
+        return [{'entry': 'add_explicit_array_dimensions'}]
+    if hazard == 'vector-dimension-bare-rhs':
+        return [{'entry': 'resolve_vector_dimension', 'derive_qualified_ranges': False, 'resolve_implicit_rhs_ranges': True}]
     if hazard in VECTOR_HAZARDS:
         return [{'entry': 'resolve_vector_notation'}]
-    if hazard == 'normalize-stride-dropped':
-        return [{'entry': 'normalize_array_shape_and_access'}]
     if hazard == 'flatten-section':
         return [{'entry': 'normalize_array_shape_and_access+flatten_arrays', 'order': 'F'}]
+    # several variants per generated (and compiled) original: the first entry always, plus a drawn subset of the others
     if mode == 'vector':
+        first = {'entry': 'resolve_vector_notation'}
         pool = [
-            {'entry': 'resolve_vector_notation'},
-            {'entry': 'resolve_vector_notation'},
             {'entry': 'resolve_vector_notation', 'resolve_implicit_rhs_ranges': False},
             {'entry': 'resolve_vector_notation', 'insert_comments': True, 'substitute_derived_type_bounds': g.chance(50)},
             {'entry': 'resolve_vector_dimension', 'derive_qualified_ranges': g.chance(50),
@@ -664,21 +790,16 @@ def gen_xforms(g, mode, hazard):
             {'entry': 'normalize_range_indexing'},
         ]
     else:
+        first = {'entry': 'normalize_array_shape_and_access'}
         pool = [
-            {'entry': 'normalize_array_shape_and_access'},
-            {'entry': 'normalize_array_shape_and_access'},
             {'entry': 'normalize_array_shape_and_access+flatten_arrays', 'order': 'F'},
             {'entry': 'normalize_array_shape_and_access+invert_array_indices+flatten_arrays', 'order': 'C'},
             {'entry': 'normalize_range_indexing'},
             {'entry': 'add_explicit_array_dimensions'},
             {'entry': 'remove_explicit_array_dimensions', 'calls_only': g.chance(40)},
         ]
-    out = []
-    for _ in range(3):
-        x = g.pick(pool)
-        if x not in out:
-            out.append(x)
-    return out
+    order = g.draw(st.permutations(range(len(pool))))
+    return [first] + [pool[k] for k in sorted(order[:nextra])]
 
 
 @st.composite
@@ -729,20 +850,31 @@ def cases(draw, hazard=None, nvec=4, minimal=False):
             s.dims[nm] = [tuple(d) for d in v['dims']]
     hz_stmts, hz_paths = [], []
     body = []
+    groups = []         # statements generated together (a WHERE and its companion loop): removed together when minimising
     for _ in range(0 if minimal else g.i(4, 7)):
-        body += gen_stmt(g, env, s, 0, 4)
+        new = gen_stmt(g, env, s, 0, 4)
+        groups.append(len(new))
+        body += new
     if mode == 'vector' and s.ncertain == 0 and not hazard and not minimal:
         r = section_assign(g, env, s, 0)
         if r is not None:
             body.append(r[0])
+            groups.append(1)
             s.ncertain += 1
     if hazard:
         s.allow.add(hazard)
         hz_stmts = hazard_stmts(g, env, s, hazard)
-        pos = g.i(0, len(body))
+        cut = g.i(0, len(groups))
+        pos = sum(groups[:cut])
         hz_paths = [len(prologue) + pos + i for i in range(len(hz_stmts))]
         body = body[:pos] + hz_stmts + body[pos:]
+        groups = groups[:cut] + [len(hz_stmts)] + groups[cut:]
         s.ncertain += 1
+    if s.bare_rhs_1n and not hazard:
+        for xf in xforms:
+            if xf['entry'] == 'resolve_vector_dimension' and not xf.get('derive_qualified_ranges'):
+                xf['derive_qualified_ranges'] = True
+                s.avoided.append('vector-dimension-bare-rhs')
     # the epilogue uses its own loop variables: the resolver re-uses the variable of ANY loop with a matching range
     decls += [decl('lk0', 'int'), decl('lk1', 'int')]
     if minimal:
@@ -754,7 +886,8 @@ def cases(draw, hazard=None, nvec=4, minimal=False):
         entry_args = [d for d in entry_args if d['name'] in used]
         prologue = [st_ for st_ in prologue if st_[1][1][0][0] in used]
         hz_paths = [len(prologue) + i for i in range(len(hz_stmts))]
-    epi = checksum_epilogue(env, ['lk0', 'lk1'])
+    body_start = len(prologue)
+    epi = nonzero_weights(checksum_epilogue(env, ['lk0', 'lk1']))
     if minimal:
         used |= mentioned_names(epi)
         decls = [d for d in decls if d['name'] in used]
@@ -768,66 +901,43 @@ def cases(draw, hazard=None, nvec=4, minimal=False):
     return {'files': [f], 'entry': {'module': 'kmod', 'name': 'kernel', 'args': entry_args},
             'inputs': inputs, 'layout': layout, 'mode': mode,
             'xforms': xforms, 'hazards': [hazard] if hazard else [], 'hz_paths': hz_paths,
-            'avoided': sorted(set(s.avoided)), 'feats': sorted(s.feats), 'certain': s.ncertain}
+            'avoided': sorted(set(s.avoided)), 'feats': sorted(s.feats), 'certain': s.ncertain,
+            'body_start': body_start, 'groups': groups, 'minimal': bool(minimal)}
 
 
-# ------------------------------------------------------------------ ablation
-def stmt_features(stmt):
-    from .model import walk_stmts
-    feats = set()
-
-    def has_rng(e):
-        if isinstance(e, list):
-            if e and e[0] == 'rng':
-                return True
-            return any(has_rng(x) for x in e)
-        return False
-
-    def strided(e):
-        if isinstance(e, list):
-            if e and e[0] == 'rng' and len(e) > 3 and e[3] is not None:
-                return True
-            return any(strided(x) for x in e)
-        return False
-
-    for p, t in walk_stmts([stmt]):
-        if t[0] in ('where', 'where1'):
-            feats.add('where')
-        if t[0] == 'assign':
-            sect = has_rng(t[1]) or (t[1][1][-1][1] is None and has_rng(t[2]))
-            whole = t[1][1][-1][1] is None
-            if has_rng(t[1]):
-                feats.add('section-assignment')
-                if sum(1 for x in t[1][1][-1][1] if isinstance(x, list) and x and x[0] == 'rng') > 1:
-                    feats.add('multi-dim-section')
-                if strided(t):
-                    feats.add('strided-section')
-                if len(p) > 1:
-                    feats.add('section-inside-construct')
-                if t[1][1][0][0] in repr(t[2]):
-                    feats.add('same-array-on-both-sides')
-        if t[0] == 'do':
-            feats.add('explicit-loop')
-        if t[0] == 'call':
-            feats.add('call')
-        if t[0] == 'if1':
-            feats.add('one-line-if')
-    return feats
-
-
-def ablations(case):
-    k = kernel_of(case)
-    per = [stmt_features(x) for x in k['body']]
-    allf = sorted(set().union(*per)) if per else []
+# ------------------------------------------------------------------ minimisation / hazard ablation
+def group_spans(case):
+    """[(first, last+1)] index ranges into the kernel body of the statement groups that were generated together"""
+    start = case.get('body_start')
+    if start is None:
+        return []
     out = []
-    for f in allf:
-        c = copy_case(case)
-        kb = kernel_of(c)['body']
-        for i, fs in enumerate(per):
-            if f in fs:
-                kb[i] = ['comment', ' ablated']
-        out.append((f, c))
+    for ln in case.get('groups') or []:
+        out.append((start, start + ln))
+        start += ln
     return out
+
+
+def without_groups(case, drop):
+    """copy of ``case`` with the statement groups whose indices are in ``drop`` removed (prologue/epilogue untouched)"""
+    c = copy_case(case)
+    kb = kernel_of(c)['body']
+    spans = group_spans(case)
+    gone = set()
+    for gi in drop:
+        gone |= set(range(*spans[gi]))
+    shift = {}
+    new, k = [], 0
+    for i, st_ in enumerate(kb):
+        if i in gone:
+            continue
+        shift[i] = k
+        new.append(st_)
+        k += 1
+    kernel_of(c)['body'] = new
+    c['groups'] = [ln for gi, ln in enumerate(case['groups']) if gi not in set(drop)]
+    c['hz_paths'] = [shift[i] for i in case.get('hz_paths') or [] if i in shift]
+    return c
 
 
 def ablate_hazard(case):
